@@ -15,7 +15,7 @@ def main():
     out = subprocess.run(["/venv/bin/python", os.path.join(ROOT, "tools", "seed_eval.py"), wt, n], capture_output=True, text=True).stdout
     d = json.loads(out)
     ok = d.get("demo_clean_exit") == 0 and d.get("demo_patched_exit", 0) != 0 and str(d.get("pytest_patched", "")).startswith("122 passed")
-    sid = "%s-%s" % (prop, n)
+    sid = "%s-%s%s" % (prop, os.environ.get("SEED_ROUND", ""), n)
     if not ok:
         print(sid, "NOT CONFIRMED", {k: d.get(k) for k in ("demo_clean_exit", "demo_patched_exit", "pytest_patched", "apply_error")})
         return 1
